@@ -11,3 +11,11 @@ if [ ! -x "$BUILD/geneffects" ] || [ "$HERE/tools/geneffects/main.go" -nt "$BUIL
 fi
 "$BUILD/geneffects" "$REPO" > "$BUILD/Effects.v.new"
 if ! cmp -s "$BUILD/Effects.v.new" "$HERE/coq/Gen/Effects.v"; then cp "$BUILD/Effects.v.new" "$HERE/coq/Gen/Effects.v"; fi
+# teletext tables (C06): built against the repository's working tree with the verif tag on every run
+rm -rf "$BUILD/genttx-src" && mkdir -p "$BUILD/genttx-src"
+cp "$HERE/tools/genttx/main.go" "$BUILD/genttx-src/"
+sed "s#=> /repo#=> $REPO#" "$HERE/tools/genttx/go.mod" > "$BUILD/genttx-src/go.mod"
+cp "$REPO/go.sum" "$BUILD/genttx-src/go.sum"
+(cd "$BUILD/genttx-src" && go build -tags verif -o "$BUILD/genttx" .)
+"$BUILD/genttx" > "$BUILD/TtxTables.v.new"
+if ! cmp -s "$BUILD/TtxTables.v.new" "$HERE/coq/Gen/TtxTables.v"; then cp "$BUILD/TtxTables.v.new" "$HERE/coq/Gen/TtxTables.v"; fi
